@@ -21,4 +21,4 @@ with open(os.path.join(VERIF, 'seeded', 'README.md'), 'w') as f:
             '| id | files | change | needs | suite | demo orig | demo changed | caught by | first report |\n|---|---|---|---|---|---|---|---|---|\n')
     for r in rows:
         f.write('| ' + ' | '.join(str(x) for x in r) + ' |\n')
-print(len(rows), 'seeded changes;', sum(1 for r in rows if r[7] != 'NOT CAUGHT'), 'caught')
+print(len(rows), 'seeded changes;', sum(1 for r in rows if not r[7].startswith('NOT CAUGHT')), 'caught')
